@@ -47,7 +47,11 @@ func runC01(ctx *h.Ctx) int {
 	ctx.RunCases("random-scripts", ctx.N(6000, 250000), func(k *h.Case) {
 		p := prof
 		// vary the flavour per case so every construct also appears in isolation
-		switch k.Index % 5 {
+		switch k.Index % 6 {
+		case 5:
+			// compound conditions around (often empty) bodies: the lowering of && / || / ! trees meets the
+			// control-flow lowering
+			p.MaxLeaves, p.PEmptyBody, p.PElse, p.NoRedundantPar = 3, 0.3, 0.7, false
 		case 1:
 			p.WSwitch = 0
 		case 2:
@@ -93,7 +97,7 @@ func runC01(ctx *h.Ctx) int {
 	runC01Enumerated(ctx)
 	rejectGuard(ctx, 0.05)
 	return ctx.Finish(
-		"random scripts over command/label/goto/end/return/if-elif-else/while/condition-less while/do-while/break/continue/plain switch (depth<=5), compiled with optimize on and off; each script run on the assembly VM and the reference interpreter under N hash-derived game states (state = function of epoch,kind,name); non-trivial = accepted script whose body has at least one construct; distinct = distinct structural signature (names abstracted)",
+		"random scripts (one flavour in six with compound conditions of up to 3 leaves and many empty bodies) over command/label/goto/end/return/if-elif-else/while/condition-less while/do-while/break/continue/plain switch (depth<=5), compiled with optimize on and off; each script run on the assembly VM and the reference interpreter under N hash-derived game states (state = function of epoch,kind,name); non-trivial = accepted script whose body has at least one construct; distinct = distinct structural signature (names abstracted)",
 		ctx.N(500, 5000),
 		[]string{"VM gives goto/goto_if_*/compare/checktrainerflag/switch/case/return/end the game's semantics; every other command is opaque and may change any state", "runs are cut at 64 commands; silent loops detected by revisiting a position in the same epoch", "generator never emits names that imitate generated labels"})
 }
